@@ -17,6 +17,7 @@ type region struct{ off, len uint64 }
 const (
 	offIovA  = 0    // 8 iovec entries
 	offIovB  = 128  // iovec entries that cover the iovec array itself
+	offIovC  = 192  // two entries: the buffer of the first IS the second entry (8 bytes)
 	offSubs  = 1024 // 8 subscriptions of 48 bytes
 	offPaths = 2048
 )
@@ -60,6 +61,8 @@ func buildImage(img string, size int) []byte {
 		putIov(b, offIovB, 128, 64)
 		putIov(b, offIovB+8, 0, S)
 		putIov(b, offIovB+16, 4000, 0xffffffff)
+		putIov(b, offIovC, offIovC+8, 8) // the first buffer is exactly the second entry
+		putIov(b, offIovC+8, 3000, 4)
 		putSub(b, offSubs+0*48, 0x1111, 0, 0, 5, 0)          // clock, relative
 		putSub(b, offSubs+1*48, 0x2222, 1, 0, 0, 0)          // fd_read stdin
 		putSub(b, offSubs+2*48, 0x3333, 2, 1, 0, 0)          // fd_write stdout
